@@ -3,22 +3,31 @@ CHECK = {
                suite("trees", "c13", 200, 2000, stdin=True, args=["-suite", "trees"], timeout={"quick": 600, "thorough": 2400})],
     "gen": [{"pkg": "extract_c13", "out": "lean/ClusterVerif/Gen/C13.lean"}],
     "lean_sources": ["ClusterVerif/Model/Pin.lean", "ClusterVerif/Gen/C13.lean", "ClusterVerif/Model/C13.lean",
-                     "ClusterVerif/Spec/C13.lean", "ClusterVerif/Lemmas/C13.lean", "ClusterVerif/Lemmas/C13Log.lean", "ClusterVerif/Lemmas/C13Deliv.lean"],
+                     "ClusterVerif/Spec/C13.lean", "ClusterVerif/Lemmas/C13.lean", "ClusterVerif/Lemmas/C13Log.lean", "ClusterVerif/Lemmas/C13Deliv.lean",
+                     "ClusterVerif/Model/C13Import.lean", "ClusterVerif/Lemmas/C13Import.lean"],
     "rule": "stream: synthetic raw-block streams (1-6 runs of equal-sized blocks, repeats, early/foreign roots; 5983..11969 four-byte blocks in the "
             "thorough tier) into single.New / sharding.New with shard limits at, one under and one over sums of block runs, 1-4 scripted allocations "
             "over 5 destinations, BlockPut faults (IPFS / RPC error, from the j-th put of a destination), BlockAllocate and Pin failures; "
             "trees: generated file trees (empty files, sizes around chunk and shard limits, >174 chunks, nested/empty directories, symlinks, hidden "
             "entries, equal and zero-filled files, many tiny files, 6000 files in the thorough tier) x chunker x layout x raw-leaves x CID version x "
             "hash x wrap x hidden x input source (memory, multipart, disk) x format (unixfs, car, bad) x entry point (adder, Cluster.AddFile, HTTP "
-            "handler) with the same scripted cluster side; non-trivial = at least one block reached the DAG service; distinct by case line",
+            "handler) with the same scripted cluster side; for every successful add the harness dumps the structure of the delivered DAG under the "
+            "returned root (per node: kind, links in encoded order, data length, recorded block sizes, stream id) and the driver compares it with "
+            "the tree the Lean importer model builds for the case (whole DAG for the size splitter, every file DAG over its own leaf lengths for any "
+            "chunker) and the stream order with the model's post-order emission; non-trivial = at least one block reached the DAG service; distinct by case line",
     "trusted_base": ["five libp2p hosts on loopback with recording IPFSConnector.BlockPut / Cluster.BlockAllocate / Cluster.Pin services; an RPC-type put "
                      "failure is produced by dropping the connection under the call (remote) or returning a gorpc client error (local)",
                      "a recording wrapper around the ClusterDAGService under test (Add stream, Finalize); verif_export.go (VerifNewCluster) for Cluster.AddFile",
                      "content checks computed in Go: go-merkledag / go-unixfs readers over the delivered blocks (hash-verified), a reference importer "
                      "assembled from go-unixfs chunker / balanced / trickle / basic-directory primitives, go-car for CAR inputs",
+                     "harness/c13/dump.go: protobuf / unixfs decoding of the delivered blocks into the structure token compared with the Lean importer model; "
+                     "file contents are not on the case line: the driver runs the model on lists of the file's length (structure depends on lengths only)",
                      "Obs.view (the decoder of implementation output into the Spec's view) agrees with the model's structural view: proved for the accepted pins (decoded_pins), checked per case for shard contents, depths and destinations"],
-    "assumptions": ["PARTIAL: closure under links, byte-exact read-back and the two root equalities are validated on generated inputs, not proved (no Lean model of "
-                    "chunking / hashing / protobuf)",
+    "assumptions": ["PARTIAL: closure, read-back, directory linking and independence of the root from the DAG service are proved over the Lean importer model "
+                    "(size splitter, balanced / trickle layout, directories, hidden filter, wrap, emitted stream) with CIDs abstracted to structural identity; "
+                    "that model is tied to the code by exact structure comparison on generated inputs. Hash computation, protobuf / unixfs / cbor encodings, "
+                    "link Tsize, CAR decoding and rabin / buzhash boundaries are not modelled: for them the four content clauses rest on the Go oracles",
+                    "importer width 174 (go-unixfs DefaultLinksPerBlock), trickle depthRepeat 4 and the default chunk size 262144 are constants of the model, not regenerated",
                     "the importer reaches Finalize only when no Add failed (CallerStops); refuted for go-unixfs balanced.Layout: known finding K33",
                     "added content is pinned recursively whatever pin mode was requested; negative replication factors are written as empty allocations",
                     "adds with the local flag are outside the allocation clause; several top-level entries without wrapping are outside the property",
@@ -32,8 +41,14 @@ META = {
             "every shard strictly under the limit, depth 2 exactly when makeDAG built an indirect node (> MaxLinks links, constants regenerated from the "
             "source). Without that hypothesis the statement is refuted by a witness, which the harness reproduces on the implementation: go-unixfs "
             "balanced.Layout drops the error of the first child's Add, the root is pinned although a block was never stored (known finding K33). "
-            "Content (closure, read-back, root equal with/without sharding and to the library importer) is validated by reading the delivered blocks back.",
-    "note": "Partial: bookkeeping proved, content validated. Trusted: Lean kernel, hand-written model/spec and view decoder, harness fakes over real libp2p "
+            "Content: a Lean model of the importer front-end (size-N chunker, balanced and trickle layout builders with their Add order, unixfs directories "
+            "with sorted links, hidden filter, wrap, the stream offered to the DAG service incl. MFS re-adds) with theorems for every file length, chunk size "
+            "and tree: chunks concatenate to the file, in-order leaves read back the bytes, recorded sizes are true sizes, fan-out <= width, balanced depth "
+            "minimal, blocks are added in post-order, the stream is closed under links and contains nothing but the root's DAG (+ MFS scaffold / empty dir), "
+            "the seen-set keeps every CID once, every visible entry is linked under its name in name order, root is a directory iff wrap or tree, and stream "
+            "and root do not depend on the DAG service. The delivered DAG's structure is compared with the model's tree per case; hashing / encoding / "
+            "non-size chunkers stay with the Go read-back oracles.",
+    "note": "Partial: bookkeeping proved; content proved over the importer model up to hashing and byte encodings, which are validated. Trusted: Lean kernel, hand-written model/spec and view decoder, harness fakes over real libp2p "
             "streams, Go content oracles (go-unixfs / go-merkledag / go-car).",
-    "technique": "Lean 4 theorems over a step model + generated constants + differential correspondence on recorded BlockPut / Pin logs + read-back oracle",
+    "technique": "Lean 4 theorems over a step model and an importer model + generated constants + differential correspondence on recorded BlockPut / Pin logs and DAG structure dumps + read-back oracle",
 }
